@@ -467,6 +467,25 @@ def hv_setup(I, args):
     I.ghost['entry'] = I.fresh('entry', 'QEntry')
 
 
+def hv_setup_small(I, args):
+    """one version with a master queue and two entries: quantifier-free variant (refutation power)"""
+    hv_setup(I, args)
+    r = I.ghost['entry']
+    I.set_attr(r, 'qbranch', br(I, I.fresh('masterq', 'str')))
+    I.set_attr(r, 'qints', I.alloc_list(tuple(br(I, I.fresh('intq%d' % j, 'str')) for j in range(2))))
+
+
+def cv_setup_small(I, args):
+    """three cascade entries, each with a development branch and an optional stabilization branch"""
+    c01_setup(I, args)
+    items = []
+    for k in range(3):
+        it = I.fresh('centry%d' % k, 'CItem')
+        I.assume(smt.Not(smt.App('BSet.dev?none', [smt.App('CItem.bset', [it.t], smt.REF)], BOOL)))
+        items.append(it)
+    I.ghost['citems'] = I.alloc_list(tuple(items))
+
+
 def nested(R, masterq, seq, n):
     """the first n entries are nested: seq[0] <= masterq, seq[j+1] <= seq[j]"""
     return ((n == 0 or incl(R, seq[0], R, masterq))
@@ -656,6 +675,15 @@ def contracts(env):
     cs = merge_contracts(env)
     install_queue_objects(env)
     install_cascade_objects(env)
+    cs.append(Contract(CV, args={'self': 'CascObj'}, setup=cv_setup_small, label=CV + '[3 entries]',
+                       ensures=[('silence_means_stabilization_in_development_in_next_development', ens_cv),
+                                ('reads_only', ens_cv_readonly)],
+                       covers=['return']))
+    cs.append(Contract(HV, args={'self': 'QCObj', 'version': 'opaque'}, setup=hv_setup_small,
+                       label=HV + '[2 entries]',
+                       ensures=[('silence_means_queue_branches_nested_above_the_destination', ens_hv_silent_means_nested),
+                                ('reads_only', ens_hv_readonly)],
+                       covers=['return']))
     cs.append(Contract(CV, args={'self': 'CascObj'}, setup=cv_setup,
                        ensures=[('silence_means_stabilization_in_development_in_next_development', ens_cv),
                                 ('reads_only', ens_cv_readonly)],
@@ -700,6 +728,16 @@ def contracts(env):
                                 ('no_other_branch_moves', ens_mib_frame)],
                        covers=['return']))
     return cs
+
+
+def extra(rep, tier, seed, budget):
+    from bounded import integrate as _integ
+    _integ.system_histories(rep, tier, seed, ['C01_inclusion'])
+
+
+def replay_file(data):
+    from bounded import integrate as _integ
+    return _integ.replay(data)
 
 
 META = {
